@@ -3,8 +3,14 @@
    record, no failure other than a conflict) is evaluated on every state the
    implementation produces (Driver/Hist.v).  Proved about the model: the initial state;
    the ownership-map part of the invariant ([records_inv]: unique managers, well-formed
-   non-empty sets) is preserved by Apply and by Update.  Not yet proved: validity of the
-   object and presence of every owned path after a step. *)
+   non-empty sets) is preserved by Apply and by Update; the Update step preserves "every
+   owned path designates a node of the live object" together with well-formed, single-
+   version, non-empty records (one version, no ignore configuration; the opening
+   reconciliation is not assumed to be the identity), by way of: a path present on the
+   left and not reported removed by the reference diff is present on the right
+   (Proofs/RefDiffPresent.v) and compare computes the reference diff (C11).  Not yet
+   proved: the same for the Apply step (needs the frame lemmas for prune), and validity of
+   the object after Apply. *)
 From Coq Require Import List ZArith String Bool.
 From SMD Require Import Model.Value Model.Order Model.PathElem Model.PathSet Model.Schema Model.Walk
   Model.FieldSet Model.Compare Model.Matcher Model.Updater Spec.PathsAsSets Spec.Examples
@@ -48,4 +54,89 @@ Theorem C06_update_preserves_records_inv :
          records_inv mf -> update_op c live new ver mf mgr = UOk (o, mf') -> records_inv mf'.
 Proof. exact update_op_records_inv. Qed.
 Print Assumptions C06_update_preserves_records_inv.
+
+(* ---- the Update step keeps every owned path present ---- *)
+From Coq Require Import Arith Lia.
+From SMD Require Import Model.Validate Spec.Resolve Spec.RefDiff Proofs.SchemaOk Proofs.CompareLaws
+  Proofs.RefDiffBoth Proofs.RefDiffLaws Proofs.RefDiffPresent Proofs.ReconcileOwned Proofs.UpdateInv.
+Theorem C06_update_keeps_owned_paths_present :
+  forall (c : config) (R : typeref -> Prop) (ver : string) (live new : string * value)
+           (mf : managed) (mgr : string) (o : tv) (mf' : managed),
+         no_ignore c ->
+         conv_id c ->
+         schema_ok (schema_of c ver) R ->
+         family_refs (schema_of c ver) R ->
+         lists_pure (schema_of c ver) R ->
+         R (tr_of c ver) ->
+         fst live = ver ->
+         fst new = ver ->
+         single_version ver mf ->
+         mf_ok mf ->
+         wf_value (snd live) = true ->
+         wf_value (snd new) = true ->
+         conforms (schema_of c ver) (tr_of c ver) true (snd live) = true ->
+         conforms (schema_of c ver) (tr_of c ver) true (snd new) = true ->
+         owned_present (schema_of c ver) (tr_of c ver) (snd live) mf ->
+         update_op c live new ver mf mgr = UOk (o, mf') ->
+         o = new /\
+         owned_present (schema_of c ver) (tr_of c ver) (snd new) mf' /\
+         mf_ok mf' /\
+         single_version ver mf' /\
+         (forall (m : string) (r : mrec), mf_get m mf' = Some r -> ps_empty (mr_set r) = false).
+Proof. exact update_preserves_owned_present. Qed.
+Print Assumptions C06_update_keeps_owned_paths_present.
+
+Theorem C06_owned_paths_survive_a_removed_free_diff :
+  forall (s : schema) (R : typeref -> Prop),
+         schema_ok s R ->
+         family_refs s R ->
+         forall (tr : typeref) (l r : value),
+         R tr ->
+         wf_value l = true ->
+         wf_value r = true ->
+         conforms s tr true l = true ->
+         conforms s tr true r = true ->
+         forall p : path,
+         wf_path p = true ->
+         p <> [] ->
+         (present s tr l p = true ->
+          pmem p (rd_removed (ref_diff s tr l r)) = false -> present s tr r p = true) /\
+         (pmem p (rd_modified (ref_diff s tr l r)) = true -> present s tr r p = true) /\
+         (pmem p (rd_added (ref_diff s tr l r)) = true -> present s tr r p = true).
+Proof. exact ref_diff_present. Qed.
+Print Assumptions C06_owned_paths_survive_a_removed_free_diff.
+
+
+(* non-vacuity: a live object with records of two managers, an update by m2 that removes
+   mm.x and changes aa, both owned by m1 (all hypotheses discharged concretely) *)
+Open Scope string_scope.
+Theorem C06_update_step_example :
+  ui_new = ui_new /\
+         owned_present ex_schema ex_rt (snd ui_new) ui_mf' /\
+         mf_ok ui_mf' /\
+         single_version "v1" ui_mf' /\
+         (forall (m : string) (r : mrec), mf_get m ui_mf' = Some r -> ps_empty (mr_set r) = false).
+Proof. exact update_preserves_owned_present_example. Qed.
+Print Assumptions C06_update_step_example.
+
+Theorem C06_update_step_example_is_not_degenerate :
+  (forall r : mrec,
+          mf_get "m1" ui_mf = Some r ->
+          ps_has [PEField "mm"; PEField "x"] (mr_set r) = true /\
+          ps_has [PEField "aa"] (mr_set r) = true) /\
+         present ex_schema ex_rt (snd ui_live) [PEField "mm"; PEField "x"] = true /\
+         present ex_schema ex_rt (snd ui_new) [PEField "mm"; PEField "x"] = false /\
+         (forall r : mrec,
+          mf_get "m1" ui_mf' = Some r ->
+          ps_has [PEField "mm"; PEField "x"] (mr_set r) = false /\
+          ps_has [PEField "aa"] (mr_set r) = false /\
+          ps_has [PEField "mm"; PEField "z"] (mr_set r) = true) /\
+         (forall r : mrec, mf_get "m2" ui_mf' = Some r -> ps_has [PEField "aa"] (mr_set r) = true).
+Proof. exact ui_example_facts. Qed.
+Print Assumptions C06_update_step_example_is_not_degenerate.
+
+Theorem C06_update_step_example_computed :
+  update_op ex_config ui_live ui_new "v1" ui_mf "m2" = UOk (ui_new, ui_mf').
+Proof. exact ui_update_computed. Qed.
+Print Assumptions C06_update_step_example_computed.
 
